@@ -140,6 +140,9 @@ class Ev:
                     x = add(add(a, b, -1), const(1))
                     if all(c > 0 for c in x.values()) and all(a.get(m, 0) >= c for m, c in b.items() if m != ()) and x != a:
                         return sym('div_ceil(%s, %s)' % (show(x), show(b)))
+                if op == 'Div' and b and a.get((), 0) == -1 and len(a) > 1 and all(c > 0 for m, c in a.items() if m != ()):
+                    # the other ceiling idiom: (x - 1) / n is x.div_ceil(n) - 1 for every x >= 1 (x = 0 underflows before dividing)
+                    return add(sym('div_ceil(%s, %s)' % (show(add(a, const(1))), show(b))), const(1), -1)
                 return sym('(%s)%s(%s)' % (show(a), '/' if op == 'Div' else '%', show(b)))
             raise Unknown('operator ' + op)
         if k == 'If' and 'el' in n:
